@@ -89,6 +89,11 @@ def run(facts, chk, tier, only=None):
     # ska build of 12 / 32 samples with --threads 1 / 2 / 4 through main(): the merge recursion reaches depth 0, 1 and 2
     from . import cli_more2
     chk.guard('C11.cli', 'C11.cli:run2', lambda: cli_more2.check_build_parallel(facts, chk, 'C11.cli', tier))
+    # repeated runs draw fresh hash seeds: whole subcommands interpreted with the iteration order of every hash container reversed
+    from . import hashorder
+    chk.guard('C11.order', 'C11.order:run', lambda: hashorder.check_pipelines_reversed(facts, chk, 'C11.order', tier))
+    chk.guard('C11.order', 'C11.order:run-ref', lambda: hashorder.check_lo_ref_repeats(facts, chk, 'C11.order', tier))
+    chk.guard('C11.vote', 'C11.vote:run', lambda: hashorder.check_vote(facts, chk, 'C11.vote', tier))
     main = facts.fn('main')
     # ---------------------------------------------------------------- pool
     def pool():
